@@ -8,7 +8,10 @@
 (*    <<"pre", d>>       timeout pre-response announcing d ticks              *)
 (*    <<"prebad">>       a pre-response without (valid) timeout: ignored      *)
 (*    <<"resp", kind>>   a response: "result" | "resource" | "error" |        *)
-(*                       "garbage" (not a valid response: internal error)     *)
+(*                       "garbage" (not a valid response: internal error;     *)
+(*                       also texts that begin with a byte order mark, a       *)
+(*                       non-ASCII letter or a digit: only an ASCII letter     *)
+(*                       starts a pre-response)                                *)
 (* deliveries happen strictly between ticks, deadlines fall on ticks.         *)
 (* fail: "" | "marshal" | "subscribe" | "publish".                            *)
 (***************************************************************************)
@@ -24,7 +27,7 @@ Wait(now, dl, s, ext, subscribed) ==
                                  ELSE Wait(now + e[2], dl, Tail(s), ext, subscribed)
            [] e[1] = "pre"    -> Wait(now, now + e[2], Tail(s), Append(ext, e[2]), subscribed)
            [] e[1] = "prebad" -> Wait(now, dl, Tail(s), ext, subscribed)
-           [] e[1] = "resp"   -> [res |-> (IF e[2] = "garbage" THEN "internal" ELSE e[2]), at |-> now, ext |-> ext]
+           [] e[1] = "resp"   -> [res |-> (IF e[2] \in {"garbage", "garbage-bom", "garbage-latin", "garbage-digit"} THEN "internal" ELSE e[2]), at |-> now, ext |-> ext]
            [] OTHER -> [res |-> "bad-script", at |-> now, ext |-> ext]
 Outcome(fail, t0, script) ==
     IF fail # "" THEN [res |-> "internal", at |-> 0, ext |-> <<>>]
